@@ -51,6 +51,8 @@ pub fn wire_oracle(rep: &mut CaseReport, oracle_prefix: &str, c2s: &[u8], hist: 
         let got = per_ch.remove(&e.ch).unwrap_or_default();
         let want: Vec<String> = e.frames.iter().map(|(f, _)| identity_of_exp(f)).collect();
         let gotids: Vec<&String> = got.iter().map(|(_, s)| s).collect();
+        rep.count("wire.channels_sequence_checked", 1);
+        rep.count("wire.frames_compared", want.len() as u64);
         let n = want.len().min(gotids.len());
         let mut first_diff = None;
         for i in 0..n {
